@@ -12,6 +12,7 @@ from __future__ import annotations
 
 import contextlib
 import math
+import multiprocessing as mp
 import random
 
 from .. import corpus
@@ -51,9 +52,40 @@ def sweep_codes(f: dict, tier: str, rng: random.Random):
     full = 1 << n
     if tier == "thorough" or n <= 9:
         return range(full)
-    step = {"quick": 131, "selftest": 1021}[tier]
+    step = {"quick": 37, "selftest": 1021}[tier]
     start = rng.randrange(step)
     return sorted(set(range(start, full, step)) | {0, 1, full - 1, full - 2, full >> 1, (full >> 1) - 1})
+
+
+def _sweep_def(job):
+    d, tier, seed = job
+    import logging
+    logging.disable(logging.CRITICAL)
+    from nmea2000.decoder import NMEA2000Decoder
+    from nmea2000.encoder import NMEA2000Encoder
+    dec, enc = NMEA2000Decoder(), NMEA2000Encoder()
+    rng = random.Random(seed)
+    swept = identical = 0
+    recs, meta = [], []
+    base = corpus.build_payload(d, {})
+    base_int = int.from_bytes(base, "little")
+    for i, f in enumerate(d["fields"]):
+        if f["match"] != -1:
+            continue
+        for c in sweep_codes(f, tier, rng):
+            p_int = (base_int & ~(((1 << f["len"]) - 1) << f["off"])) | (c << f["off"])
+            payload = p_int.to_bytes(len(base), "little")
+            o = roundtrip(dec, enc, d, payload)
+            if o is None:
+                continue
+            swept += 1
+            if o["ret"] == "enc" and bytes(o["e"]) == payload:
+                identical += 1
+                continue
+            if len(recs) < 400:                   # per definition: enough to name every failing field
+                recs.append(o)
+                meta.append((d["id"], f"{i+1}:code"))
+    return swept, identical, recs, meta
 
 
 def model(chk: Check, tier: str):
@@ -88,26 +120,15 @@ def bind(chk: Check, tier: str, seed: int):
                 encoded_by_def[d["id"]] = encoded_by_def.get(d["id"], 0) + 1
             recs.append(o)
             meta.append((d["id"], tag))
-    # every-code sweep: identical round trips are only counted
+    # every-code sweep (16 processes): identical round trips are only counted
     swept = identical = 0
-    for d in encodable:
-        base = corpus.build_payload(d, {})
-        base_int = int.from_bytes(base, "little")
-        for i, f in enumerate(d["fields"]):
-            if f["match"] != -1:
-                continue
-            for c in sweep_codes(f, tier, rng):
-                p_int = (base_int & ~(((1 << f["len"]) - 1) << f["off"])) | (c << f["off"])
-                payload = p_int.to_bytes(len(base), "little")
-                o = roundtrip(dec, enc, d, payload)
-                if o is None:
-                    continue
-                swept += 1
-                if o["ret"] == "enc" and bytes(o["e"]) == payload:
-                    identical += 1
-                    continue
-                recs.append(o)
-                meta.append((d["id"], f"{i+1}:code"))
+    jobs = [(d, tier, seed + d["idx"]) for d in encodable]
+    with mp.Pool(16) as pool:
+        for sw, ident, rs, ms in pool.imap_unordered(_sweep_def, jobs, chunksize=4):
+            swept += sw
+            identical += ident
+            recs += rs
+            meta += ms
     # definitions the predicate admits but that never encode leave the domain (DRIFT, gated)
     never = sorted(i for i in accepted_by_def if i not in encoded_by_def)
     for i in never:
